@@ -336,6 +336,12 @@ Theorem C09_rng_requests : par_n_global_rng_calls = 0%Z /\ par_n_rss_requests = 
 Proof. exact rng_requests. Qed.
 Print Assumptions C09_rng_requests.
 
+(* RandomStateService.__init__ / reseed hand the (cast) seed to numpy unconditionally: statement skeletons with
+   right-hand sides, read from skyllh/core/random.py (a seed of 0 is a seed; `mk : Z -> St` is total) *)
+Theorem C09_rss_seeding_shape : par_rss_init_shape = true /\ par_rss_reseed_shape = true.
+Proof. exact K_par_rss_shapes. Qed.
+Print Assumptions C09_rss_seeding_shape.
+
 (* ---- non-vacuity ---- *)
 
 (* 7 tasks, 3 processes, worker 2 delivers before worker 1, polls interleaved *)
